@@ -156,6 +156,8 @@ func (c12) Gen(rng *rand.Rand, tier string, k int) *Case {
 		}
 		if many {
 			a.SrcN, a.TgtN = rng.Intn(3), rng.Intn(2)
+		} else if rng.Intn(40) == 0 {
+			a.SrcN = 257 + rng.Intn(500) // a long backlog copied in one run
 		}
 		if a.SrcN >= 3 && rng.Intn(8) == 0 {
 			a.SrcSwap = 1 + rng.Intn(a.SrcN-2) // the source is not in date order (its latest snapshot is still its last)
